@@ -33,7 +33,7 @@ REQUIRED_CLASSES = ["op:transfer", "op:distribute", "op:add", "op:remove", "op:a
 @st.composite
 def _case(draw, focus, tier="quick"):
     n = draw(st.integers(1, 3))
-    names = ["Alpha", "Beta plate ", " Gamma_3"]
+    names = ["Alpha 70%", "Beta plate ", " Gamma_3"]
     labs = []
     for i in range(n):
         kind = draw(st.sampled_from(["plate", "trough"])) if i == 0 else draw(st.sampled_from(["plate", "plate", "trough"]))
@@ -252,5 +252,10 @@ def check_case(case) -> Obs:
                     break
         if obs.violations:
             break
+    _msg = world.templates_changed()
+    if _msg:
+        obs.bad("C11/untouched-object-changed", _msg)
+    if world.templates:
+        obs.cls("cloned-labware")
     obs.nontrivial = executed >= 3 and interesting
     return obs
